@@ -6,6 +6,18 @@ From PT Require Import Str Dec Py Loaders C06Check.
 Import ListNotations."""
 CT = "Z * Z * list pyval"
 
+MANIFEST = dict(
+    text=("Theorems (Props/C06.v, closed under the global context): for every element block of the embedded "
+          "composition table, run through the Gallina transcription of mass.init on the table text regenerated "
+          "from /repo, the abundances sum to exactly 100 over the listed isotopes and over all isotopes; the "
+          "abundance-weighted isotope mass is within the stated uncertainty of the atomic weight; unlisted isotopes "
+          "have abundance 0; the loader accepts every row.  Tie: exhaustive correspondence - all 119 elements and "
+          "2940 isotopes x 7 observables, public and private table, implementation value vs model value (bit-exact "
+          "for table reads).  A failing input is searched with an independent third reading of the table text."),
+    note="Modelled not verified: Python float(), str.split, dict order.",
+    technique="Coq proof by kernel-evaluated sweep over regenerated tables + generic loader lemmas; exhaustive model/implementation correspondence",
+    ref="DESIGN.md section 7 C06")
+
 
 def run(ctx):
     proved = vlib.prove(ctx)
